@@ -114,7 +114,8 @@ func (v VLA) analyzeVLAForMarshaling() (*vlaMarshalingContext, error) {
 	if ctx.commonSLBM != 0 {
 		ctx.requiredLen = 1
 	} else {
-		ctx.requiredLen = 3
+		// one byte of slX_bm fields per two RTP streams
+		ctx.requiredLen = 1 + (v.RTPStreamCount-1)/2 + 1
 	}
 
 	// #tl fields
